@@ -46,7 +46,7 @@ def floors(tier):
 def variants():
     v = []
     v += [("currents_const", k) for k in ("one_extra", "all_same_sign", "missing_return", "one_less", "all_negative", "return_omitted")]
-    v += [("currents_callable", k) for k in ("always", "late", "growing", "always_negative", "late_negative")]
+    v += [("currents_callable", k) for k in ("always", "late", "growing", "always_negative", "late_negative", "early_with_thermalisation", "early")]
     v += [("unknown_terminal", "callable")]
     v += [("epsilon", k) for k in ("scalar", "spatial", "spatial_one_site", "time_dependent")]
     v += [("options", k) for k in ("dt_init_gt_dt_max", "terminal_psi_abs", "multiplier_low", "multiplier_high", "drag_zero", "drag_high", "step_size", "tolerance", "tolerance_zero", "step_size_negative", "multiplier_negative", "multiplier_one", "drag_negative",
@@ -159,6 +159,9 @@ def run_case(case):
             elif var == "late_negative":
                 if t > T / 2:
                     cur[0] -= m * abs(cur[0])
+            elif var in ("early", "early_with_thermalisation"):
+                if t < 0.3 * T:  # a switch-on transient: the return path lags
+                    cur[0] += m * abs(cur[0])
             elif var == "late":
                 if t > T / 2:
                     cur[0] += m * abs(cur[0])
@@ -166,6 +169,8 @@ def run_case(case):
                 cur[0] += m * abs(cur[0]) * (t / T)
             return dict(zip(names, cur))
         skw["terminal_currents"] = f
+        if var == "early_with_thermalisation":
+            okw["skip_time"] = T  # the same callable is evaluated from t = 0 in the thermalisation stage and again in the recorded stage
         make = solve_with(okw, skw)
     elif cls == "unknown_terminal":
         def f(t):
